@@ -564,5 +564,45 @@ def differential() -> dict:
             "evaluations": n, "bound": "families " + ", ".join(fams), "violation": bool(res), "details": res[:2]}
 
 
+# Divergences of the UNCHANGED tree reported by round-5 seeding agents, reproduced natively, not repaired (DESIGN 10.5):
+# each is probed on exactly the reported input; a listed one is printed as KNOWN-FINDING, one that is not listed
+# (KNOWN_FINDINGS.txt, standin=c02-reported-divergences) is a violation; once repaired the probe is silent.
+REPORTED = {
+    "ci-fold:kelvin-sign": ('r = { (^"k" | "x") ~ EOI }', "r", "\u212a"),
+    "ci-fold:long-s": ('r = { (^"s" | "x") ~ EOI }', "r", "\u017f"),
+    "ci-fold:sharp-s": ('r = { (^"ss" | "x") ~ EOI }', "r", "\u00df"),
+    "tag-popped-inside-negative-predicate": ('foo = { "a" }\nbar = { "a" }\nr = { #t=((!foo ~ ANY)* ~ bar) }', "r", "xxa"),
+}
+
+
+def reported_divergences() -> dict:
+    from pest import Parser
+    from pest.exceptions import PestParsingError
+
+    from .common import standin_findings
+
+    listed = standin_findings(PROPERTY, "c02-reported-divergences")
+    bad, known_lines = [], []
+    n = 0
+    for case, (g, rule, text) in REPORTED.items():
+        outs = []
+        for opt in (False, True):
+            n += 1
+            p = Parser.from_grammar(g) if opt else Parser.from_grammar(g, optimizer=None)
+            try:
+                outs.append(("ok", p.parse(rule, text).dumps()))
+            except PestParsingError:
+                outs.append(("fail", None))
+            except Exception as e:  # noqa: BLE001
+                outs.append(("raised", type(e).__name__))
+        if outs[0] != outs[1]:
+            if case in listed:
+                known_lines.append(listed[case])
+            else:
+                bad.append({"case": case, "grammar": g, "rule": rule, "text": text, "unoptimized": outs[0], "optimized": outs[1]})
+    return {"name": "c02-reported-divergences", "kind": "bounded stand-in (probes of reported inputs on the real library)", "evaluations": n,
+            "bound": f"{len(REPORTED)} reported grammar/input pairs, optimizer=None vs default", "violation": bool(bad), "details": bad[:4], "known_lines": known_lines}
+
+
 def extra_checks(tier, seed):
-    return [differential()]
+    return [differential(), reported_divergences()]
